@@ -86,4 +86,26 @@ structure FuncDecl where
   results : List (String × Ty)
   body : Stmt
 
+/-- the statement contains no store through a pointer and no allocation (syntactically, on any path) -/
+def Stmt.readOnly : Stmt → Bool
+  | .skip => true
+  | .seq a b => a.readOnly && b.readOnly
+  | .define _ .newBucket => false
+  | .define _ _ => true
+  | .assign _ _ => true
+  | .store _ _ => false
+  | .opAssign _ _ _ => true
+  | .ifThen _ t f => t.readOnly && f.readOnly
+  | .ret _ => true
+  | .retBare => true
+  | .forever b => b.readOnly
+  | .while _ b => b.readOnly
+  | .for3 i _ p b => i.readOnly && p.readOnly && b.readOnly
+  | .rangeIdx _ _ b => b.readOnly
+  | .continue => true
+  | .incr _ => true
+  | .labeled _ s => s.readOnly
+  | .goto _ => true
+  | .block s => s.readOnly
+
 end Deep.T
